@@ -614,6 +614,13 @@ func isDirectInput(g *graph.Graph, v, root graph.Vertex) bool {
 // with the given named arguments. This skips the whole graph creation
 // step by requiring args satisfy all required arguments.
 func (f *Func) callDirect(log hclog.Logger, argMap map[interface{}]reflect.Value) Result {
+	// A FuncOnce function may be reached by concurrent calls. Hold its lock
+	// across the cache check, the call and the cache store below.
+	if f.once && f.onceMu != nil {
+		f.onceMu.Lock()
+		defer f.onceMu.Unlock()
+	}
+
 	// If we have FuncOnce enabled and we've been called before, return
 	// the result we have cached.
 	if f.once && f.onceResult != nil {
